@@ -109,6 +109,7 @@ class Interp:
         self.notes = []
         self.extra_models = models or {}
         self.inline_derived = False
+        self.call_sites = {}
         # opt-in: positions handed out by `enumerate` are the constants 0, 1, 2 ... (decides `if position > 0`)
         self.count_enumerate = False
         self.tsub = {}   # generic parameter name -> concrete type string, for the body being interpreted
@@ -680,6 +681,7 @@ class Interp:
         return None, v
 
     def call(self, st, fid, t, body, depth, stack):
+        self.cur_def = body["def"]
         fn, fval = self.callee(st, fid, t)
         args = [self.operand(st, fid, a) for a in t["args"]]
         if fn is None:
@@ -757,6 +759,8 @@ class Interp:
     def opaque_call(self, st, fn, name, args):
         if self.tsub:
             name = self.subst(name)
+        # where (in which body) each opaque callee was called from: lets a panic site be attributed to what was interpreted
+        self.call_sites.setdefault(name, set()).add(getattr(self, "cur_def", None))
         rargs = tuple(self.resolve(st, a) for a in args)
         term = ("call", name, rargs)
         # distinguish repeated identical calls by occurrence index
